@@ -218,6 +218,14 @@ def install(E):
             dst.arr.v.e[dst.off + k] = byte
         return None
     I['(encoding/binary.littleEndian).PutUint32'] = put_u32_le
+    def put_u32_be(e, a):
+        dst, v = a[1], a[2]
+        if dst.len < 4: raise GoPanic('index out of range')
+        for k in range(4):
+            sh = 8 * (3 - k)
+            dst.arr.v.e[dst.off + k] = (v >> sh) & 0xff if isinstance(v, int) else z3.Extract(sh + 7, sh, v)
+        return None
+    I['(encoding/binary.bigEndian).PutUint32'] = put_u32_be
     def be_u64(e, a):
         b = a[1]
         n = e.builtin('len', [b], None)
